@@ -2,13 +2,13 @@
 # dev helper with overlay: runo.sh <scenario> <start:count:stride>
 export GOFLAGS=-mod=mod GOPROXY=off GOSUMDB=off GOTOOLCHAIN=local
 cd /verif
-mkdir -p .build/dev
+mkdir -p .build/${DEV:-dev}
 if [ -z "$NOBUILD" ]; then
-./bin/overlaygen -repo ${VERIF_REPO:-/repo} -out .build/dev/overlay >/dev/null || exit 2
-sed "s#=> /repo#=> ${VERIF_REPO:-/repo}#" go.mod > .build/dev/go.mod; cp go.sum .build/dev/go.sum
-go1.26.8 test -c -tags verif -vet=off -overlay .build/dev/overlay/overlay.json -modfile .build/dev/go.mod -o .build/dev/scen.test ./scen || exit 2
+./bin/overlaygen -repo ${VERIF_REPO:-/repo} -out .build/${DEV:-dev}/overlay >/dev/null || exit 2
+sed "s#=> /repo#=> ${VERIF_REPO:-/repo}#" go.mod > .build/${DEV:-dev}/go.mod; cp go.sum .build/${DEV:-dev}/go.sum
+go1.26.8 test -c -tags verif -vet=off -overlay .build/${DEV:-dev}/overlay/overlay.json -modfile .build/${DEV:-dev}/go.mod -o .build/${DEV:-dev}/scen.test ./scen || exit 2
 fi
-VERIF_SCEN=$1 VERIF_SEEDS=$2 GOMAXPROCS=1 timeout ${T:-600} .build/dev/scen.test -test.cpu 1 -test.timeout 1h -test.run TestWorker 2>&1 | python3 -c "
+VERIF_SCEN=$1 VERIF_SEEDS=$2 GOMAXPROCS=1 timeout ${T:-600} .build/${DEV:-dev}/scen.test -test.cpu 1 -test.timeout 1h -test.run TestWorker 2>&1 | python3 -c "
 import sys,json,collections
 n=0;v=0;st=0;nt=0;h=set();pr=collections.Counter();fl=collections.Counter();sim=0;wall=0
 for l in sys.stdin:
